@@ -539,9 +539,9 @@ func (h *hrun) checkpoint(final bool) {
 	time.Sleep(5 * time.Millisecond)
 	quiet := 300 * time.Millisecond
 	if h.connOps {
-		quiet = connQuiet
+		quiet = connQuiet()
 	}
-	b, regs, stable := settle(h.nodes, quiet, 10*time.Second)
+	b, regs, stable := settle(h.nodes, quiet, 12*time.Second)
 	if !stable {
 		h.res.hist("checkpoint:not-stable")
 	}
@@ -820,6 +820,9 @@ func historiesMain(args []string) {
 	per, _ := strconv.Atoi(args[2])
 	resPath, logPath := args[3], args[4]
 	QuietLogs()
+	if tier == "thorough" {
+		idleTimeout = 1500 * time.Millisecond
+	}
 	netceptor.MaxIdleTimeoutForQuicConnections = idleTimeout
 	r := NewRng(seed)
 	res := &childResult{Extra: map[string]interface{}{}, path: resPath}
@@ -895,7 +898,7 @@ func historiesMain(args []string) {
 		if h.shut {
 			// whatever is left of the mesh goes away completely
 			m.Shutdown()
-			now, _, _ := settle(nil, connQuiet, 10*time.Second)
+			now, _, _ := settle(nil, connQuiet(), 12*time.Second)
 			var left []string
 			for kk, v := range now {
 				if underTest(kk) && v > 0 {
